@@ -245,7 +245,7 @@ func (u *Universe) plans(st *SpecTables) map[string]*PropPlan {
 	P["C17"] = &PropPlan{ID: "C17", Title: "every report field shows its own metric, in the requested language",
 		Units: []Unit{{Func: "rep.newOptions", NoSym: true, Scen: true}, {Func: "rep.NewBase"}, {Func: "rep.NewTemporal"}, {Func: "rep.NewEnvironmental"},
 			{Alias: "nam"}, {LemmaLabel: "C18"}, {Func: "v3m.Version.String"}, {Func: "v3m.Temporal.BaseMetrics"}, {Func: "v3m.Environmental.TemporalMetrics"}, {Lemma: "v3_grid_prints"}},
-		Assumptions: []string{"A5", "A7", "A10", "A-opt: an option list is represented by the language it selects (English without options); tied to the real closures of WithOptionsLanguage by exact execution of newOptions with 0, 1 and 2 options"},
+		Assumptions: []string{"A5", "A7", "A10", "A-opt: an option list is represented by the language it selects (English without options); tied to the real closures of WithOptionsLanguage by exact execution of newOptions with 0, 1, 2, 3 and 4 options (the loop applies the options in order, the last one wins; 5+ not executed)"},
 		Meta:        []string{"One postcondition per exported field of the three report structs (23 + 12 + 28 fields plus the embedded reports' fields): title fields equal the summary of the title function of the metric the field is named after, value fields the summary of that metric's value-name function applied to that metric's field of the metrics object, both at the requested language; Version/Vector are the version label and the Encode() text of the same level (call-site ghost of <Level>.Encode#0); <Level>Score is FormatFloat of the value returned by <Level>.Score#0 and SeverityValue the name of the value returned by <Level>.Severity#0 (a constructor that consults another level's score/severity does not make that call and fails); embedded reports are built from the embedded metrics with the same options. Name functions are distinguishable because their summaries are exact (C18)."},
 	}
 	P["C19"] = &PropPlan{ID: "C19", Title: "template export renders faithfully and fails cleanly (relative to text/template)",
